@@ -4,6 +4,7 @@ package main
 // stores and writes the trace: every op echoed as `op …` followed by what the implementation did.
 
 import (
+	"berty.tech/go-orbit-db/address"
 	"context"
 	"encoding/hex"
 	"encoding/json"
@@ -171,6 +172,16 @@ func (w *World) RunScript(lines []string) (err error) {
 			line = strings.Join(toks, " ")
 			if strings.Contains(line, "=e0") || strings.Contains(line, ",e0") {
 				continue
+			}
+		}
+		if toks[0] == "openaddr" && len(toks) > 2 && w.lastAddr != "" {
+			// @rlast@ / @nlast@ in an address template: root and path of the last database created
+			if a, err := address.Parse(w.lastAddr); err == nil {
+				t := string(unhx(toks[2]))
+				t = strings.ReplaceAll(t, "@rlast@", "@"+w.rootName(a.GetRoot().String())+"@")
+				t = strings.ReplaceAll(t, "@nlast@", w.maskRoots(a.GetPath()))
+				toks[2] = hx([]byte(t))
+				line = strings.Join(toks, " ")
 			}
 		}
 		w.printf("op %s\n", line)
